@@ -62,7 +62,10 @@ def gen_case(rng, tier, index):
             "fp": rng.choice([1, 2, 3]),
             "file_bits": rng.getrandbits(16),
             "sched_seed": rng.getrandbits(48),
-            "policy": rng.choice(S.POLICIES)})
+            "policy": rng.choice(S.POLICIES),
+            # the default, repeating stream: the selection holds in every
+            # epoch (three epochs' worth of examples are taken)
+            "repeat": rng.random() < 0.3})
     return {"hist": hist, "sels": sels, "seed": rng.getrandbits(32)}
 
 
@@ -158,13 +161,20 @@ def run_case(case):
             exp = expected_selection(sel, table, nshards, use_limit)
             k = {"n": nshards, "n+2": nshards + 2,
                  "n-1": max(1, nshards - 1)}.get(sel["shards"], sel["shards"])
-            opts = {"repeat": False, "shuffle": sel["shuffle"],
+            repeat = bool(sel.get("repeat"))
+            opts = {"repeat": repeat, "shuffle": sel["shuffle"],
                     "fp": sel["fp"], "shards": k,
                     "shard_filter": make_filter(sel, table),
                     "limit": sel["limit"] if use_limit else None}
-            rr = eread.run_reader(env, ds, iface, split, opts,
+            n_sel = sum(len(x["ids"]) for x in exp) if exp else 0
+            take = 3 * n_sel + 2 if repeat else None
+            if repeat and exp is None:
+                take = 5
+            rr = eread.run_reader(env, ds, iface, split, opts, k=take,
                                   seed=sel["sched_seed"],
                                   policy=sel["policy"])
+            if repeat:
+                probes["repeating_stream"] += 1
             ctx = (f"{iface} {st['fmt']} shards_in_split={nshards} shards={k} "
                    f"filter={sel['filter']} limit={opts['limit']} "
                    f"shuffle={sel['shuffle']}")
@@ -187,6 +197,18 @@ def run_case(case):
                 out.update(ok=False, vclass="selection_raised", key=key,
                            detail=f"{ctx}: {type(rr.exc).__name__}: "
                            f"{str(rr.exc)[:200]}")
+            elif repeat:
+                want = collections.Counter(i for x in exp for i in x["ids"])
+                outside = sorted(i for i in got if i not in want)
+                unseen = sorted(i for i in want if i not in got)
+                if outside or (unseen and not sel["shuffle"]) or \
+                        sum(got.values()) < take:
+                    out.update(
+                        ok=False, vclass="wrong_selection", key=key,
+                        detail=f"{ctx} repeat=True, {take} examples taken "
+                        f"(3 epochs of the selection): outside the selection "
+                        f"{outside[:8]}, never seen {unseen[:8]}, got "
+                        f"{sum(got.values())}")
             else:
                 want = collections.Counter(i for x in exp for i in x["ids"])
                 if got != want:
@@ -244,7 +266,7 @@ def reach(agg):
     p = agg["probes"]
     for name in ("iface_sync", "iface_conc", "iface_async", "limit_option",
                  "limit_actually_drops_shards", "first_k_truncates",
-                 "filter_option", "empty_selection",
+                 "filter_option", "empty_selection", "repeating_stream",
                  "non_contiguous_metadata_groups"):
         if not p.get(name):
             need.append(f"probe {name} never hit")
